@@ -22,6 +22,8 @@ CHECKS = {
  "C08": dict(fam="detect", ref="4.4", note='Trusted: TLC; in-package driver reading tempThresh/background after each Detect (build tag verif); harness-written telemetry; float deviations named in Detector.tla (+-1 on the mean, weight ties).', text="Paired streams through two real detectors in lock-step, differing only in border pixels (any values incl. 0/65535, fixed and dynamic threshold) or only below temp-thresh (fixed): TLC checks the pairing precondition on the logged pixels and demands equal results, equal interior background and equal threshold; the design model states the loops' interior bounds (Detector.tla) and is checked for C07/C09/C15."),
  "C09": dict(fam="detect", ref="4.4", note='Trusted: TLC; in-package driver reading tempThresh/background after each Detect (build tag verif); harness-written telemetry; float deviations named in Detector.tla (+-1 on the mean, weight ties).', text="TLC checks on the design model that no FFC-affected frame nor the frame after one reports motion for every FFC/reset placement; on the real detector the same rule is judged on streams with FFC periods of every length/parity, and paired histories that are identical from the first affected frame of a period (or from a reset, fixed threshold) but arbitrary before must give identical results (targeted across-the-period pairs + random)."),
  "C15": dict(fam="detect", ref="4.4", note='Trusted: TLC; in-package driver reading tempThresh/background after each Detect (build tag verif); harness-written telemetry; float deviations named in Detector.tla (+-1 on the mean, weight ties).', text="TLC checks on the design model (dynamic threshold, min/max unset or set, mean below/inside/above, preview 0/1, FFC, resets) the background envelope, border replication, re-seed and threshold = clamped mean; the real detector's background and threshold after every frame are judged by the same rules in TLC (+-1 for the float mean) and validated against Detector.tla."),
+ "C10": dict(fam="files", ref="4.6", note="Trusted: TLC; strace/ptrace for kill placement (falls back to random-instant kills); go-cptv reader as the definition of 'decodes'; POSIX rename/unlink atomicity; process kill only.", text="TLC checks FileRecorder.tla (file-system calls of start/write/stop/discard, crash in every state, clean-up with the kinds measured on the real deleteTempFiles, restart) for 'every *.cptv is complete' and 'only complete recordings after clean-up'; the real recorder's call sequence (strace) is validated as a behaviour of that model with the invariant evaluated after every call; the process is really SIGKILLed on entering each file-system call of the scenarios and at random instants, every *.cptv is fully decoded, the daemon's clean-up is run, and a concurrent observer decodes files the moment they appear; the findings are judged by TLC (FileTrace.tla)."),
+ "C11": dict(fam="files", ref="4.6", note="Trusted: TLC as evaluator of expected = decoded (the specification of fidelity is the identity); go-cptv reader; the e2e harness (runMain in-process, fake system bus, lock-step pacing so that 1 ms file names cannot collide); detector verdicts in e2e are the scene toggles (fixed-threshold one-diff configuration).", text="Generated device/camera/location/motion descriptions, pixel generators (full 16-bit range, 0, 65535, alternating extremes) and telemetry extremes go through the real CPTVFileRecorder; TLC compares every decoded header field, frame, pixel and telemetry value with what was recorded (Fidelity.tla). End to end, the unmodified runMain() gets a generated config.toml and a scripted socket byte stream; SystemTrace.tla steps Processor.tla with constants from the GENERATED settings and TLC compares the predicted files (frame-id sequences, motion and continuous) with the files decoded from the output directory, plus headers incl. camera-model motion defaults and throttle on/off."),
 }
 NOT_YET = {
 }
@@ -49,7 +51,8 @@ def main():
         hooks=dict(guard="verif", enable="go build -tags verif (drivers are compiled inside a scratch copy of /repo's working tree)",
                    baseline_off_cmd="cd /repo && go build ./... && go test -vet=off -count=1 ./...",
                    source_commits=[], add_only=True),
-        engines=[dict(name="tlc-detect", path="tools/fam_detect.py", serves_properties=["C07", "C08", "C09", "C15"], kind_free_text="TLC around spec/Detector.tla, DetCheck.tla, DetMon.tla; in-package driver harness/inpkg/motion"),
+        engines=[dict(name="tlc-files", path="tools/fam_files.py", serves_properties=["C10", "C11"], kind_free_text="TLC around spec/FileRecorder.tla, FileTrace.tla, Fidelity.tla, SystemTrace.tla; in-package drivers harness/inpkg/cmd/thermal-recorder (scenario child under strace, record/decode, e2e runMain + fake bus)"),
+                 dict(name="tlc-detect", path="tools/fam_detect.py", serves_properties=["C07", "C08", "C09", "C15"], kind_free_text="TLC around spec/Detector.tla, DetCheck.tla, DetMon.tla; in-package driver harness/inpkg/motion"),
                  dict(name="tlc-throttle", path="tools/fam_throttle.py", serves_properties=["C05", "C06"], kind_free_text="TLC around spec/Throttle.tla + ThrMon.tla; driver harness/ext/thrdrv (direct and real-processor modes)"),
                  dict(name="tlc-ring", path="tools/fam_ring.py", serves_properties=["C19"], kind_free_text="TLC around spec/FrameLoop.tla; driver harness/ext/ringdrv"),
                  dict(name="tlc-loglim", path="tools/fam_loglim.py", serves_properties=["C20"], kind_free_text="TLC around spec/LogLimiter.tla; in-package driver harness/inpkg/loglimiter"),
